@@ -694,6 +694,7 @@ func (vfs *MemFS) openFile(name string, flag int, perm fs.FileMode) (file avfs.F
 			nd:       child,
 			vfs:      vfs,
 			name:     name,
+			absPath:  pi.Path(),
 			at:       at,
 			openMode: om,
 		}
@@ -759,6 +760,7 @@ func (vfs *MemFS) openFile(name string, flag int, perm fs.FileMode) (file avfs.F
 		nd:       child,
 		vfs:      vfs,
 		name:     name,
+		absPath:  pi.Path(),
 		at:       at,
 		openMode: om,
 	}
